@@ -216,7 +216,7 @@ func c10Case(w *core.Worker, i int) {
 		// usability after removing the leftover control files
 		removeControlFiles(dir)
 		for _, name := range tx.tables {
-			p := core.RunProc(core.ProcOpts{Dir: dir, Args: csvqArgs("-q", "--wait-timeout", "1", fmt.Sprintf("SELECT COUNT(*) FROM `%s`; UPDATE `%s` SET c1 = 'probe' WHERE id = 1;", name, name)), Timeout: 60 * time.Second})
+			p := core.RunProc(core.ProcOpts{Dir: dir, Args: csvqArgs("-q", "--wait-timeout", "10", fmt.Sprintf("SELECT COUNT(*) FROM `%s`; UPDATE `%s` SET c1 = 'probe' WHERE id = 1;", name, name)), Timeout: 60 * time.Second})
 			if p.Code != 0 {
 				w.Violation("unusable@"+pointName(at), fmt.Sprintf("after dying at %s and removing the control files, table %s is not usable: %s", at, name, p), c10Replay{Files: small(tx.files), Links: tx.links, Program: tx.program, CrashAt: at})
 			}
